@@ -180,6 +180,7 @@ FeatTable == <<
   F("t.cellimage",         "t", {"blip", "cNvPicPr", "cNvPr", "docPr", "drawing", "extent", "inline", "p", "prstGeom", "r", "stretch", "xfrm"}, "all", {}),
   F("t.cellimage.sized",   "t", {"blip", "cNvPicPr", "cNvPr", "docPr", "drawing", "extent", "inline", "p", "prstGeom", "r", "stretch", "xfrm"}, "all", {}),
   F("t.cellimage.file",    "t", {"blip", "cNvPicPr", "cNvPr", "docPr", "drawing", "extent", "inline", "p", "prstGeom", "r", "stretch", "xfrm"}, "all", {}),
+  F("t.cellimage.same",    "t", {"blip", "cNvPicPr", "cNvPr", "docPr", "drawing", "extent", "inline", "p", "prstGeom", "r", "stretch", "xfrm"}, "all", {}),   \* the same bytes in two pictures
   F("t.nested.d1",         "t", {"p", "r", "t", "tbl", "tc", "tr"}, "all", {}),
   F("t.nested.d2",         "t", {"p", "r", "t", "tbl", "tc", "tr"}, "all", {}),
   F("t.nested.two",        "t", {"p", "r", "t", "tbl", "tc", "tr"}, "all", {}),
